@@ -135,6 +135,10 @@ def cli_clause(ctx, rnd, programs):
                     ctx.report({"clause": "cli-output-on-diagnostic", "class": cls, "symptom": {}}, {"kind": "cli", "lines": lines, "created": created})
             elif rec["outcome"] == "ok" and rc != 0:
                 ctx.report({"clause": "cli-nonzero-on-success", "class": cls, "symptom": {"rc": rc}}, {"kind": "cli", "lines": lines, "stdout": out[-300:], "stderr": err[-300:]})
+            elif rec["outcome"] == "ok" and pre is None and rec["image"] and \
+                    (not os.path.exists(outs["bin"]) or list(open(outs["bin"], "rb").read()) != rec["image"]):
+                # "ends ... with an image": the command that reports success has written the image it was asked for
+                ctx.report({"clause": "cli-success-without-image", "class": cls, "symptom": {}}, {"kind": "cli", "lines": lines, "stdout": out[-300:]})
             ctx.add_class("cli|%s|%s" % (rec["outcome"], rc))
             for o in outs.values():
                 if os.path.exists(o):
